@@ -4,6 +4,7 @@ import (
 	"encoding/json"
 	"flag"
 	"fmt"
+	"math"
 	"reflect"
 	"runtime"
 	"strings"
@@ -67,7 +68,16 @@ func valueTable(i int, tag language.Tag) (map[string]string, []string) {
 	} else {
 		consts = severityConsts
 	}
+	cs := []int{}
 	for c := -2; c <= 8; c++ {
+		cs = append(cs, c)
+	}
+	// values congruent to a defined one modulo 2^8, 2^16, 2^32: still out of range
+	for c := 0; c <= 6; c++ {
+		cs = append(cs, c+256, c-256, c+65536, c+(1<<32), c-(1<<32))
+	}
+	cs = append(cs, math.MaxInt64, math.MinInt64)
+	for _, c := range cs {
 		name := asciiSafe(nameMetas[i].ValueOf(c, tag))
 		sym := ""
 		for _, cc := range consts {
